@@ -22,6 +22,14 @@ pub struct Duration { pub ns: Ghost<nat> }
 impl Duration {
     #[verifier::external_body]
     pub fn as_nanos(&self) -> (r: u128) ensures r == self.ns@ { unimplemented!() }
+    #[verifier::external_body]
+    pub fn subsec_nanos(&self) -> (r: u32) ensures r == self.ns@ % 1_000_000_000 { unimplemented!() }
+    #[verifier::external_body]
+    pub fn as_secs(&self) -> (r: u64) ensures r == self.ns@ / 1_000_000_000 { unimplemented!() }
+    #[verifier::external_body]
+    pub fn as_micros(&self) -> (r: u128) ensures r == self.ns@ / 1_000 { unimplemented!() }
+    #[verifier::external_body]
+    pub fn as_millis(&self) -> (r: u128) ensures r == self.ns@ / 1_000_000 { unimplemented!() }
 }
 impl PartialEq for Duration { #[verifier::external_body] fn eq(&self, o: &Self) -> bool { unimplemented!() } }
 impl Eq for Duration {}
